@@ -90,6 +90,7 @@ func main() {
 	}
 
 	// ---- gerror.go --------------------------------------------------------------------------
+	pkgConsts = loadConsts(fset, *dir)
 	gf, err := parser.ParseFile(fset, filepath.Join(*dir, "gerror.go"), nil, 0)
 	if err != nil {
 		fatal("%v", err)
@@ -247,9 +248,57 @@ func isSel(e ast.Expr, pkg, name string) bool {
 	return ok && id.Name == pkg && se.Sel.Name == name
 }
 
+// pkgConsts are the package-level constants of the package being read (name -> value expression);
+// extractMethod resolves identifiers through them.
+var pkgConsts = map[string]ast.Expr{}
+
+// loadConsts collects `const name = expr` declarations (explicit values only) of all non-test files.
+func loadConsts(fset *token.FileSet, dir string) map[string]ast.Expr {
+	out := map[string]ast.Expr{}
+	ents, err := os.ReadDir(dir)
+	if err != nil {
+		fatal("%v", err)
+	}
+	for _, e := range ents {
+		n := e.Name()
+		if e.IsDir() || !strings.HasSuffix(n, ".go") || strings.HasSuffix(n, "_test.go") {
+			continue
+		}
+		f, err := parser.ParseFile(fset, filepath.Join(dir, n), nil, 0)
+		if err != nil {
+			fatal("%v", err)
+		}
+		for _, d := range f.Decls {
+			gd, ok := d.(*ast.GenDecl)
+			if !ok || gd.Tok != token.CONST {
+				continue
+			}
+			for _, sp := range gd.Specs {
+				vs := sp.(*ast.ValueSpec)
+				if len(vs.Values) != len(vs.Names) {
+					continue // iota continuation lines: no explicit value
+				}
+				for k, nm := range vs.Names {
+					out[nm.Name] = vs.Values[k]
+				}
+			}
+		}
+	}
+	return out
+}
+
 // extractMethod reads one factory method. pkg is the qualifier of gerror identifiers ("" inside the
 // package, "gerror" in the template); wrap is the method the CloneBase result must be passed
 // through before being returned ("" or "toPrimaryType").
+//
+// Accepted body: an optional leading `if v, ok := p.(Error); ok { return v }`, then any number of
+// straight-line single-assignment definitions (`x := expr`, `var x = expr`, `const x = expr`), then
+// one `return`.  Identifiers are resolved through those definitions and through package-level
+// constants to their defining expressions, so the row is the same whether an argument is written in
+// place or computed into a local first.  Because the only statements are definitions evaluated once,
+// in order, over parameters that are never assigned, the substitution does not change what is
+// passed.  Anything else (assignment, loop, branch, call statement, a second definition of a name)
+// is refused.
 func extractMethod(fd *ast.FuncDecl, pkg, wrap string) (row, error) {
 	r := row{name: fd.Name.Name}
 	params := []string{}
@@ -277,8 +326,45 @@ func extractMethod(fd *ast.FuncDecl, pkg, wrap string) (row, error) {
 			r.sig = append(r.sig, ty)
 		}
 	}
+	recv := recvName(fd)
+	isParam := func(name string) bool {
+		if name == recv {
+			return true
+		}
+		for _, p := range params {
+			if p == name {
+				return true
+			}
+		}
+		return false
+	}
+	locals := map[string]ast.Expr{}
+	// resolve follows single-assignment locals and package constants (parameters shadow both)
+	resolve := func(e ast.Expr) ast.Expr {
+		for depth := 0; depth < 16; depth++ {
+			switch x := e.(type) {
+			case *ast.ParenExpr:
+				e = x.X
+				continue
+			case *ast.Ident:
+				if isParam(x.Name) {
+					return e
+				}
+				if d, ok := locals[x.Name]; ok {
+					e = d
+					continue
+				}
+				if d, ok := pkgConsts[x.Name]; ok && pkg == "" {
+					e = d
+					continue
+				}
+			}
+			return e
+		}
+		return e
+	}
 	idx := func(e ast.Expr) int {
-		if id, ok := e.(*ast.Ident); ok {
+		if id, ok := resolve(e).(*ast.Ident); ok {
 			for i, p := range params {
 				if p == id.Name {
 					return i
@@ -287,7 +373,6 @@ func extractMethod(fd *ast.FuncDecl, pkg, wrap string) (row, error) {
 		}
 		return -1
 	}
-	recv := recvName(fd)
 	stmts := fd.Body.List
 	// optional short circuit
 	if len(stmts) > 0 {
@@ -313,45 +398,113 @@ func extractMethod(fd *ast.FuncDecl, pkg, wrap string) (row, error) {
 			stmts = stmts[1:]
 		}
 	}
-	var call *ast.CallExpr
-	switch {
-	case wrap == "" && len(stmts) == 1:
-		ret, ok := stmts[0].(*ast.ReturnStmt)
-		if !ok || len(ret.Results) != 1 {
-			return r, fmt.Errorf("body is not a single return")
-		}
-		call, _ = ret.Results[0].(*ast.CallExpr)
-	case wrap != "" && len(stmts) == 2:
-		as, ok := stmts[0].(*ast.AssignStmt)
-		ret, ok2 := stmts[1].(*ast.ReturnStmt)
-		if !ok || !ok2 || as.Tok != token.DEFINE || len(as.Lhs) != 1 || len(as.Rhs) != 1 || len(ret.Results) != 1 {
-			return r, fmt.Errorf("body is not `clone := CloneBase(…); return e.%s(clone)`", wrap)
-		}
-		cv, _ := as.Lhs[0].(*ast.Ident)
-		wc, _ := ret.Results[0].(*ast.CallExpr)
-		if cv == nil || wc == nil || len(wc.Args) != 1 || !isSel(wc.Fun, recv, wrap) || !isSel(wc.Args[0], "", cv.Name) {
-			return r, fmt.Errorf("result is not returned through e.%s(clone)", wrap)
-		}
-		call, _ = as.Rhs[0].(*ast.CallExpr)
-	default:
-		return r, fmt.Errorf("unexpected number of statements (%d)", len(stmts))
+	if len(stmts) == 0 {
+		return r, fmt.Errorf("empty body")
 	}
+	define := func(name string, val ast.Expr) error {
+		if name == "_" {
+			return fmt.Errorf("value assigned to _ (a statement kept only for its effect)")
+		}
+		if _, dup := locals[name]; dup || isParam(name) {
+			return fmt.Errorf("%s is defined more than once", name)
+		}
+		bad := false
+		ast.Inspect(val, func(n ast.Node) bool {
+			switch n.(type) {
+			case *ast.FuncLit:
+				bad = true
+			case *ast.UnaryExpr:
+				if n.(*ast.UnaryExpr).Op == token.AND || n.(*ast.UnaryExpr).Op == token.ARROW {
+					bad = true
+				}
+			}
+			return !bad
+		})
+		if bad {
+			return fmt.Errorf("definition of %s takes an address, receives from a channel or contains a function literal", name)
+		}
+		locals[name] = val
+		return nil
+	}
+	for _, st := range stmts[:len(stmts)-1] {
+		switch x := st.(type) {
+		case *ast.AssignStmt:
+			if x.Tok != token.DEFINE || len(x.Lhs) != 1 || len(x.Rhs) != 1 {
+				return r, fmt.Errorf("statement before the return is not a single definition `x := expr`")
+			}
+			id, ok := x.Lhs[0].(*ast.Ident)
+			if !ok {
+				return r, fmt.Errorf("statement before the return is not a single definition `x := expr`")
+			}
+			if err := define(id.Name, x.Rhs[0]); err != nil {
+				return r, err
+			}
+		case *ast.DeclStmt:
+			gd, ok := x.Decl.(*ast.GenDecl)
+			if !ok || (gd.Tok != token.VAR && gd.Tok != token.CONST) {
+				return r, fmt.Errorf("unexpected declaration before the return")
+			}
+			for _, sp := range gd.Specs {
+				vs := sp.(*ast.ValueSpec)
+				if len(vs.Values) != len(vs.Names) {
+					return r, fmt.Errorf("declaration of %s without an initial value", vs.Names[0].Name)
+				}
+				for k, nm := range vs.Names {
+					if err := define(nm.Name, vs.Values[k]); err != nil {
+						return r, err
+					}
+				}
+			}
+		default:
+			return r, fmt.Errorf("statement before the return is neither a definition nor the gerror short circuit (%T)", st)
+		}
+	}
+	ret, ok := stmts[len(stmts)-1].(*ast.ReturnStmt)
+	if !ok || len(ret.Results) != 1 {
+		return r, fmt.Errorf("body does not end in a single-value return")
+	}
+	result := resolve(ret.Results[0])
+	if wrap != "" {
+		wc, _ := result.(*ast.CallExpr)
+		if wc == nil || len(wc.Args) != 1 || wc.Ellipsis.IsValid() || !isSel(wc.Fun, recv, wrap) {
+			return r, fmt.Errorf("result is not returned through %s.%s(<CloneBase result>)", recv, wrap)
+		}
+		result = resolve(wc.Args[0])
+	}
+	call, _ := result.(*ast.CallExpr)
 	if call == nil || !isSel(call.Fun, pkg, "CloneBase") || len(call.Args) != 6 || call.Ellipsis.IsValid() {
-		return r, fmt.Errorf("not a call CloneBase(e, stackType, dTag, source, extMsg, srcError)")
+		return r, fmt.Errorf("returned value is not a call CloneBase(e, stackType, dTag, source, extMsg, srcError)")
 	}
-	if !isSel(call.Args[0], "", recv) {
+	if !isSel(resolve(call.Args[0]), "", recv) {
 		return r, fmt.Errorf("first CloneBase argument is not the receiver")
 	}
 	r.stack = "StackType.other"
 	for _, st := range [][2]string{{"NoStack", ".noStack"}, {"SourceStack", ".sourceStack"}, {"ShortStack", ".shortStack"}, {"DefaultStack", ".defaultStack"}} {
-		if isSel(call.Args[1], pkg, st[0]) {
-			r.stack = st[1]
+		// the StackType constants themselves are not resolved further (their values are read separately)
+		a := call.Args[1]
+		for depth := 0; depth < 16; depth++ {
+			if isSel(a, pkg, st[0]) {
+				r.stack = st[1]
+				break
+			}
+			id, isId := a.(*ast.Ident)
+			if !isId || isParam(id.Name) {
+				break
+			}
+			if d, ok := locals[id.Name]; ok {
+				a = d
+			} else if d, ok := pkgConsts[id.Name]; ok && pkg == "" {
+				a = d
+			} else {
+				break
+			}
 		}
 	}
 	if r.stack == "StackType.other" {
-		return r, fmt.Errorf("stack type argument is not one of the StackType constants")
+		return r, fmt.Errorf("stack type argument cannot be traced to one of the StackType constants")
 	}
 	strArg := func(e ast.Expr) string {
+		e = resolve(e)
 		if bl, ok := e.(*ast.BasicLit); ok && bl.Kind == token.STRING {
 			if s, err := strconv.Unquote(bl.Value); err == nil && s == "" {
 				return ".empty"
@@ -366,7 +519,7 @@ func extractMethod(fd *ast.FuncDecl, pkg, wrap string) (row, error) {
 	r.dtag = strArg(call.Args[2])
 	r.src = strArg(call.Args[3])
 	r.msg = ".other"
-	switch m := call.Args[4].(type) {
+	switch m := resolve(call.Args[4]).(type) {
 	case *ast.BasicLit:
 		if s, err := strconv.Unquote(m.Value); err == nil && s == "" {
 			r.msg = ".empty"
@@ -375,7 +528,7 @@ func extractMethod(fd *ast.FuncDecl, pkg, wrap string) (row, error) {
 		if isSel(m.Fun, "fmt", "Sprintf") && len(m.Args) == 2 {
 			if m.Ellipsis.IsValid() && idx(m.Args[0]) >= 0 && idx(m.Args[1]) >= 0 {
 				r.msg = fmt.Sprintf(".sprintf %d %d", idx(m.Args[0]), idx(m.Args[1]))
-			} else if bl, ok := m.Args[0].(*ast.BasicLit); ok && !m.Ellipsis.IsValid() && idx(m.Args[1]) >= 0 {
+			} else if bl, ok := resolve(m.Args[0]).(*ast.BasicLit); ok && !m.Ellipsis.IsValid() && idx(m.Args[1]) >= 0 {
 				if s, err := strconv.Unquote(bl.Value); err == nil && s == "originalError: %+v" {
 					r.msg = fmt.Sprintf(".origErr %d", idx(m.Args[1]))
 				}
@@ -383,7 +536,7 @@ func extractMethod(fd *ast.FuncDecl, pkg, wrap string) (row, error) {
 		}
 	}
 	r.err = ".other"
-	if isSel(call.Args[5], "", "nil") {
+	if isSel(resolve(call.Args[5]), "", "nil") {
 		r.err = ".nil"
 	} else if i := idx(call.Args[5]); i >= 0 {
 		r.err = fmt.Sprintf(".param %d", i)
@@ -610,51 +763,101 @@ func extractErrorParts(fd *ast.FuncDecl) []string {
 // ---- write sets ---------------------------------------------------------------------------------
 
 // storesLean lists every store (assignment, op-assignment, ++/--) in the functions a derivation runs
-// (CloneBase and the stack helpers; the 19 methods themselves contain none), classified by where
+// (CloneBase, the methods of *GError and whatever they call inside the package), classified by where
 // the written location lives:
 //
 //	fresh   a field/element of an object the same function has just allocated (&T{…}, make, T{…})
 //	local   a local variable or parameter of the function itself (re-slicing included)
 //	shared  anything else: through a parameter, the receiver, a package-level variable
 func storesLean(fset *token.FileSet, dir string) string {
-	funcs := map[string]bool{"CloneBase": true, "makeStack": true, "pcToStackElem": true, "NearestExternal": true,
-		"getCurrentPackage": true, "SourceInfo": true, "Metric": true}
-	seen := map[string]bool{}
-	var rows []string
-	for _, file := range []string{"factory.go", "stack.go", "gerror.go"} {
-		f, err := parser.ParseFile(fset, filepath.Join(dir, file), nil, 0)
+	// all functions and methods of the package, by name (methods of different types sharing a name
+	// are all kept: the call graph below is by name, hence an over-approximation)
+	decls := map[string][]*ast.FuncDecl{}
+	var order []*ast.FuncDecl
+	ents, err := os.ReadDir(dir)
+	if err != nil {
+		fatal("%v", err)
+	}
+	for _, e := range ents {
+		n := e.Name()
+		if e.IsDir() || !strings.HasSuffix(n, ".go") || strings.HasSuffix(n, "_test.go") {
+			continue
+		}
+		f, err := parser.ParseFile(fset, filepath.Join(dir, n), nil, 0)
 		if err != nil {
 			fatal("%v", err)
 		}
 		for _, d := range f.Decls {
-			fd, ok := d.(*ast.FuncDecl)
-			if !ok || fd.Body == nil {
-				continue
-			}
-			isMethod := fd.Recv != nil && recvType(fd) == "GError"
-			if !funcs[fd.Name.Name] && !(file == "gerror.go" && isMethod) {
-				continue
-			}
-			seen[fd.Name.Name] = true
-			for _, st := range storesOf(fd) {
-				rows = append(rows, fmt.Sprintf("  (%s, %s, %s)", strconv.Quote(fd.Name.Name), strconv.Quote(st[0]), st[1]))
+			if fd, ok := d.(*ast.FuncDecl); ok && fd.Body != nil {
+				decls[fd.Name.Name] = append(decls[fd.Name.Name], fd)
+				order = append(order, fd)
 			}
 		}
 	}
-	for fn := range funcs {
-		if !seen[fn] {
-			fatal("write sets: function %s not found", fn)
+	if len(decls["CloneBase"]) == 0 {
+		fatal("write sets: function CloneBase not found")
+	}
+	// roots: CloneBase and every method of *GError; then everything they call inside the package
+	reach := map[*ast.FuncDecl]bool{}
+	var work []*ast.FuncDecl
+	add := func(fd *ast.FuncDecl) {
+		if !reach[fd] {
+			reach[fd] = true
+			work = append(work, fd)
 		}
 	}
-	return "/-- every store in the code a derivation runs: (function, written expression, where it lives) -/\ndef stores : List (String × String × StoreClass) := [\n" +
+	for _, fd := range order {
+		if fd.Name.Name == "CloneBase" || (fd.Recv != nil && recvType(fd) == "GError") {
+			add(fd)
+		}
+	}
+	for len(work) > 0 {
+		fd := work[len(work)-1]
+		work = work[:len(work)-1]
+		ast.Inspect(fd.Body, func(n ast.Node) bool {
+			ce, ok := n.(*ast.CallExpr)
+			if !ok {
+				return true
+			}
+			name := ""
+			switch f := ce.Fun.(type) {
+			case *ast.Ident:
+				name = f.Name
+			case *ast.SelectorExpr:
+				name = f.Sel.Name
+			case *ast.IndexExpr: // explicit instantiation f[T](…)
+				if id, ok := f.X.(*ast.Ident); ok {
+					name = id.Name
+				}
+			}
+			for _, callee := range decls[name] {
+				add(callee)
+			}
+			return true
+		})
+	}
+	var rows []string
+	for _, fd := range order {
+		if !reach[fd] {
+			continue
+		}
+		for _, st := range storesOf(fd) {
+			rows = append(rows, fmt.Sprintf("  (%s, %s, %s)", strconv.Quote(fd.Name.Name), strconv.Quote(st[0]), st[1]))
+		}
+	}
+	return "/-- every store in the code a derivation runs (CloneBase, every method of `*GError`, and all package\nfunctions they reach): (function, written expression, where it lives) -/\ndef stores : List (String × String × StoreClass) := [\n" +
 		strings.Join(rows, ",\n") + "\n]\n\n"
 }
 
 func storesOf(fd *ast.FuncDecl) [][2]string {
 	fresh := map[string]bool{} // locals bound to a fresh allocation
 	local := map[string]bool{}
-	isFresh := func(e ast.Expr) bool {
+	// isFresh: the expression denotes memory nobody else can reach yet
+	var isFresh func(e ast.Expr) bool
+	isFresh = func(e ast.Expr) bool {
 		switch x := e.(type) {
+		case *ast.ParenExpr:
+			return isFresh(x.X)
 		case *ast.UnaryExpr:
 			if x.Op == token.AND {
 				_, ok := x.X.(*ast.CompositeLit)
@@ -662,8 +865,20 @@ func storesOf(fd *ast.FuncDecl) [][2]string {
 			}
 		case *ast.CompositeLit:
 			return true
+		case *ast.Ident:
+			return x.Name == "nil" || fresh[x.Name]
+		case *ast.SliceExpr:
+			return isFresh(x.X)
 		case *ast.CallExpr:
-			if id, ok := x.Fun.(*ast.Ident); ok && (id.Name == "make" || id.Name == "new") {
+			if id, ok := x.Fun.(*ast.Ident); ok {
+				switch id.Name {
+				case "make", "new":
+					return true
+				case "append": // appending to a fresh slice yields a fresh slice
+					return len(x.Args) > 0 && isFresh(x.Args[0])
+				}
+			}
+			if isSel(x.Fun, "slices", "Clone") || isSel(x.Fun, "strings", "Clone") || isSel(x.Fun, "bytes", "Clone") {
 				return true
 			}
 		}
@@ -748,6 +963,15 @@ func storesOf(fd *ast.FuncDecl) [][2]string {
 			}
 		case *ast.IncDecStmt:
 			out = append(out, [2]string{text(x.X), classify(x.X)})
+		case *ast.CallExpr:
+			// append(s, …) may write into the backing array of s; copy(dst, …) writes into dst
+			if id, ok := x.Fun.(*ast.Ident); ok && (id.Name == "append" || id.Name == "copy") && len(x.Args) >= 2 {
+				c := ".shared"
+				if isFresh(x.Args[0]) {
+					c = ".fresh"
+				}
+				out = append(out, [2]string{id.Name + " into " + text(x.Args[0]), c})
+			}
 		case *ast.RangeStmt:
 			for _, e := range []ast.Expr{x.Key, x.Value} {
 				if id, ok := e.(*ast.Ident); ok && x.Tok == token.DEFINE {
